@@ -105,6 +105,16 @@ def rule_seq_custom(prog):
     if len(stores) < 2:
         res.viol("anchors", f.loc, "process_sequence_custom lost its Pending->Active->Tombstone transitions")
         return res
+    # one custom event per tick: after a transition the scan over the states ends (no way back to the loop's next())
+    nexts = [bi for bi, t in f.calls() if (callee_name(t) or "").endswith("::next")]
+    for (b, sv, ln) in stores:
+        again = any(nb in f.reach_from(b) for nb in nexts)
+        res.inst("one-transition-per-tick/" + sv, scan_continues=again)
+        res.oblige(not again)
+        if again:
+            res.viol("one-transition-per-tick/" + sv, "%s:%s" % (f.file, ln),
+                     "after the %s transition the scan over the states goes on: a second custom item is advanced in the same tick, "
+                     "but a tick can report only one custom event, so that item's press or release is lost" % sv)
     for v in ("Press", "Release"):
         r = reach_under_variant(prog, f, CE, v)
         bad = [(b, sv, ln) for (b, sv, ln) in stores if b in r]
